@@ -22,6 +22,7 @@ type State struct {
 	A     string             // allocation counter
 	regs  map[ssa.Value]Val
 	hist  *big.Int // block visits on some path to this state
+	lane  string   // states of different lanes (exits of unrolled loops at different iterations) are not merged
 }
 
 var heapKinds = []string{"u8", "i8", "u16", "i16", "u32", "i32", "int", "u64", "bool", "ref", "flt"}
@@ -29,7 +30,7 @@ var heapKinds = []string{"u8", "i8", "u16", "i16", "u32", "i32", "int", "u64", "
 const maxLen = "281474976710656" // 2^48
 
 func (s *State) clone() *State {
-	n := &State{pc: s.pc, A: s.A, hist: s.hist, vars: make(map[*ssa.Alloc]Val, len(s.vars)), heaps: make(map[string]string, len(s.heaps)), regs: make(map[ssa.Value]Val, len(s.regs))}
+	n := &State{pc: s.pc, A: s.A, hist: s.hist, lane: s.lane, vars: make(map[*ssa.Alloc]Val, len(s.vars)), heaps: make(map[string]string, len(s.heaps)), regs: make(map[ssa.Value]Val, len(s.regs))}
 	for k, v := range s.regs {
 		n.regs[k] = v
 	}
@@ -88,6 +89,8 @@ type Exec struct {
 	loops    map[*ssa.BasicBlock]*loopInfo
 	doneBlk  map[*ssa.BasicBlock]bool
 	boundedBy []string
+	nlanes   int
+	invHeader *ssa.BasicBlock // loop whose invariant is being evaluated
 }
 
 type closureVal struct {
@@ -121,7 +124,7 @@ func (e *Exec) merge(es []edge) *State {
 		s.pc = c.and(s.pc, es[0].cond)
 		return s
 	}
-	out := &State{vars: map[*ssa.Alloc]Val{}, heaps: map[string]string{}, regs: map[ssa.Value]Val{}, hist: new(big.Int)}
+	out := &State{vars: map[*ssa.Alloc]Val{}, heaps: map[string]string{}, regs: map[ssa.Value]Val{}, hist: new(big.Int), lane: es[0].st.lane}
 	for _, ed := range es {
 		if ed.st.hist != nil {
 			out.hist = new(big.Int).Or(out.hist, ed.st.hist)
@@ -587,7 +590,15 @@ func (e *Exec) unop(s *State, x *ssa.UnOp) {
 	case token.NOT:
 		s.regs[x] = Val{c.I("(- 1 %s)", e.val(s, x.X)[0])}
 	case token.SUB:
-		s.regs[x] = Val{c.wrap(c.I("(- %s)", e.val(s, x.X)[0]), leaves(x.Type())[0])}
+		l := leaves(x.Type())[0]
+		raw := c.I("(- %s)", e.val(s, x.X)[0])
+		if l.signed && l.bits == 64 && c.raw == 0 && !cmpLitOnly.MatchString(raw) {
+			h := pow2(63)
+			c.oblige(e.obl("safety", "overflow", x), s.pc, c.B("(< %s %s)", raw, h))
+			s.regs[x] = Val{raw}
+			return
+		}
+		s.regs[x] = Val{c.wrap(raw, l)}
 	case token.XOR:
 		l := leaves(x.Type())[0]
 		if l.signed {
@@ -803,12 +814,20 @@ func (e *Exec) binop(s *State, x *ssa.BinOp) Val {
 		}
 	}
 	switch x.Op {
-	case token.ADD:
-		return res(c.wrap(c.I("(+ %s %s)", a[0], b[0]), l))
-	case token.SUB:
-		return res(c.wrap(c.I("(- %s %s)", a[0], b[0]), l))
-	case token.MUL:
-		return res(c.wrap(c.I("(* %s %s)", a[0], b[0]), l))
+	case token.ADD, token.SUB, token.MUL:
+		op := map[token.Token]string{token.ADD: "+", token.SUB: "-", token.MUL: "*"}[x.Op]
+		raw := c.I("(%s %s %s)", op, a[0], b[0])
+		if l.signed && l.bits == 64 && c.raw == 0 {
+			// int / int64: absence of overflow is an obligation of its own (as for index
+			// arithmetic in any RTE-style verifier); once discharged the exact result is used,
+			// which keeps the rest of the VC linear. (Unsigned and narrower types wrap, as Go defines.)
+			if _, isL := isLit(raw); !isL && !cmpLitOnly.MatchString(raw) {
+				h := pow2(63)
+				c.oblige(e.obl("safety", "overflow", x), s.pc, c.B("(and (<= (- %s) %s) (< %s %s))", h, raw, raw, h))
+				return res(raw)
+			}
+		}
+		return res(c.wrap(raw, l))
 	case token.QUO, token.REM:
 		c.oblige(e.obl("safety", "divzero", x), s.pc, c.B("(not (= %s 0))", b[0]))
 		if !l.signed {
@@ -831,7 +850,8 @@ func (e *Exec) binop(s *State, x *ssa.BinOp) Val {
 		}
 		if k, ok := constInt(x.Y); ok && k.Sign() > 0 {
 			// positive constant divisor: no overflow possible, one case split on the dividend's sign
-			q := c.I("(ite (>= %s 0) (div %s %s) (- (div (- %s) %s)))", a[0], a[0], b[0], a[0], b[0])
+			// truncation toward zero = floor of the dividend shifted by k-1 when it is negative (one div)
+			q := c.I("(div (+ %s (ite (< %s 0) %s 0)) %s)", a[0], a[0], new(big.Int).Sub(k, big.NewInt(1)), b[0])
 			if m := c.getMax(a[0]); m != nil {
 				q = c.I("(div %s %s)", a[0], b[0])
 				c.setMax(q, new(big.Int).Div(m, k))
